@@ -87,6 +87,22 @@ def d2_duplicates(chk, F):
         chk.expect(ok, "C11.D2-duplicates", f"parse|{setname}|pairing", where,
                    f"the insert into `{setname}` is not confined to the not-found outcome of the lookup of the same key",
                    sample=f"{where}: insert into {setname} only after get(same key) returned None")
+        # every iteration of the checking loop that does not return registers its key
+        from c03 import acyclic_without
+        heads = [hb for hb, ht in f.calls() if (callee_key(ht) or "").endswith(("Iterator>::next", "Iterator::next", "::next"))
+                 and f.node_dominates(hb, b) and hb in f.reach_from(b)]
+        # innermost loop around the insert, and only when it is a dedicated (nested) checking loop
+        inner = [h for h in heads if all(f.node_dominates(o, h) for o in heads)]
+        if len(heads) >= 2 and inner:
+            h = inner[0]
+            body = sorted(x for x in f.live if f.node_dominates(h, x) and h in f.reach_from(x))
+            for scc in [body]:
+                okc, cyc = acyclic_without(f, scc, {b})
+                lines = sorted({f.blocks[x]["term"].get("line") for x in (cyc or []) if f.blocks[x]["term"].get("line")})
+                chk.expect(okc, "C11.D2-duplicates", f"parse|{setname}|every key registered", where,
+                           f"an iteration of the loop that checks `{setname}` can continue without inserting its key (through lines {lines}): "
+                           "such names are stored but never compared, so they may repeat",
+                           sample=f"{where}: every iteration of the check loop reaches the insert into {setname}")
         # found outcome builds the duplicate error
         errs = [i for ff, i, s, d in aggregates(F, f.key, "aisle::AisleConfError") if s["rv"]["variant"].startswith("Duplicate") and ff is f]
         ok = any(any(e in f.reach_from(s) for e in errs) for s in somes)
